@@ -40,6 +40,29 @@ def _segment_verifiers(ctx):
                 tgt = sy.expr(c.args[0], env)
                 if tgt and tgt[0] == "attr" and tgt[1][0] == "param" and tgt[2] == "position":
                     out[q] = (f, tgt[1][1], c, dotted(c.func.value))
+    # the seek behind a small helper:  tag = _read_tag(self._file, segment.position)  with  def _read_tag(f, pos): f.seek(pos); ...
+    seekers = {}
+    for q, g in prog.functions.items():
+        if q.startswith("reader.") and g.cls is None:
+            for c in walk_body(g.node):
+                if isinstance(c, ast.Call) and isinstance(c.func, ast.Attribute) and c.func.attr == "seek" and c.args and isinstance(c.args[0], ast.Name) \
+                        and c.args[0].id in g.params and isinstance(c.func.value, ast.Name) and c.func.value.id in g.params:
+                    seekers[q] = (g.params.index(c.func.value.id), g.params.index(c.args[0].id))
+    if seekers:
+        from .flow import resolve_call
+        for q, f in sorted(prog.functions.items()):
+            if not q.startswith("reader.") or q in out or not any(isinstance(k, ast.Raise) for k in walk_body(f.node)):
+                continue
+            sy = None
+            for c in walk_body(f.node):
+                if isinstance(c, ast.Call):
+                    for g, _k in resolve_call(prog, f, f.cls, c):
+                        if g.qual in seekers and len(c.args) > max(seekers[g.qual]):
+                            sy = sy or Sym(prog, f, f.cls, inline=False)
+                            env, _g = sy.env_at(c)
+                            tgt = sy.expr(c.args[seekers[g.qual][1]], env)
+                            if tgt and tgt[0] == "attr" and tgt[1][0] == "param" and tgt[2] == "position":
+                                out[q] = (f, tgt[1][1], c, dotted(c.args[seekers[g.qual][0]]))
     return out
 
 
@@ -206,6 +229,10 @@ def mp2(ctx, R):
     seg = ("param", segp)
     al = _stream_aliases(vs, stream)
     seeks = [c for c in walk_body(vs.node) if isinstance(c, ast.Call) and isinstance(c.func, ast.Attribute) and c.func.attr == "seek" and dotted(c.func.value) in al]
+    if not seeks and not (isinstance(seek0.func, ast.Attribute) and seek0.func.attr == "seek"):
+        R.unrecognised("%s::seek / read / tag" % vq, vs.where(seek0), "the stream is positioned and read by a helper (`%s`): how many bytes are read and "
+                       "what they are compared with was not followed" % unparse(seek0)[:60])
+        return
     ok = False
     if seeks:
         env, _g = sy.env_at(seeks[0])
@@ -504,7 +531,8 @@ def co1(ctx, R):
                         "segment end (data-file offset) is clamped against the data file's size", "the data file size is compared with `%s`, which is not a "
                         "data-file offset" % show(other)[:120])
     if n_cmp < 1:
-        raise AnchorMissing("reader.TdmsReader: comparison of a segment end with _data_file_size")
+        R.unrecognised("reader.TdmsReader::clamp against the data file size", prog.module("reader").relpath, "no ordering comparison with self._data_file_size in "
+                       "a method of TdmsReader (the clamp may have moved into a helper that is handed the size): not decided")
     # _data_file_size is measured on the data stream
     init = prog.func("reader.TdmsReader.__init__")
     si = Sym(prog, init, init.cls, inline=False)
